@@ -92,15 +92,8 @@ func AppendDecimal(b []byte, f float64, dec int) []byte {
 	}
 	f *= math.Pow10(dec)
 
-	// correct rounding
-	if 0.0 <= f {
-		f += 0.5
-	} else {
-		f -= 0.5
-	}
-
-	// calculate mantissa and exponent
-	num := int64(f)
+	// calculate mantissa and exponent, math.Round rounds half away from zero (adding 0.5 may round once more)
+	num := int64(math.Round(f))
 	if num == 0 {
 		return append(b, '0')
 	}
